@@ -520,6 +520,10 @@ class Ev:
         r = self.facts.fn(name)
         if r is None:
             raise Unsupported("no body for " + name)
+        if any(n_ == name for n_, _ in self.fn_stack) and self.hooks.get("@rec") is not None:
+            v_ = self.hooks["@rec"](self, name, args)          # an unsummarised function calling itself: the rule says what a recursive call of it stands for
+            if v_ is not None:
+                return v_
         if depth > self.max_depth:
             raise Unsupported("inlining depth exceeded at " + name)
         env = {}
